@@ -392,15 +392,30 @@ type ChannelsForPeer struct {
 
 // ChannelsForPeer identifies which channels are open and which request IDs they map to
 func (t *Transport) ChannelsForPeer(p peer.ID) ChannelsForPeer {
-	t.dtChannelsLk.RLock()
-	defer t.dtChannelsLk.RUnlock()
-
 	// cannot have active transfers with self
 	if p == t.peerID {
 		return ChannelsForPeer{
 			SendingChannels:   map[datatransfer.ChannelID]ChannelGraphsyncRequests{},
 			ReceivingChannels: map[datatransfer.ChannelID]ChannelGraphsyncRequests{},
 		}
+	}
+
+	// currentRequest reads the channel's current graphsync request id under the channel's own lock
+	// (it is written under that lock by open, cancel and the incoming-request path). The two locks
+	// are taken one after the other, never nested, so the lock order of the hooks is not affected.
+	currentRequest := func(chid datatransfer.ChannelID) (graphsync.RequestID, bool) {
+		t.dtChannelsLk.RLock()
+		ch := t.dtChannels[chid]
+		t.dtChannelsLk.RUnlock()
+		if ch == nil {
+			return graphsync.RequestID{}, false
+		}
+		ch.lk.RLock()
+		defer ch.lk.RUnlock()
+		if ch.requestID == nil {
+			return graphsync.RequestID{}, false
+		}
+		return *ch.requestID, true
 	}
 
 	sending := make(map[datatransfer.ChannelID]ChannelGraphsyncRequests)
@@ -418,7 +433,7 @@ func (t *Transport) ChannelsForPeer(p peer.ID) ChannelsForPeer {
 			channelGraphsyncRequests := collection[chid]
 			// finally, determine if the request key matches the current GraphSync key we're tracking for
 			// this channel, indicating it's the current graphsync request
-			if t.dtChannels[chid] != nil && t.dtChannels[chid].requestID != nil && (*t.dtChannels[chid].requestID) == requestID {
+			if current, ok := currentRequest(chid); ok && current == requestID {
 				channelGraphsyncRequests.Current = requestID
 			} else {
 				// otherwise this id was a previous graphsync request on a channel that was restarted
